@@ -111,6 +111,7 @@ func fmtPrefixResp(resp dhcpv6.DHCPv6) string {
 }
 
 func (s *prefixState) exec(c *ctx, op string) string {
+	c.pre(op)
 	f := strings.Fields(op)
 	switch f[0] {
 	case "psetup":
